@@ -164,17 +164,18 @@ std::string ref_decode(const std::vector<uint8_t> &b, RefFile &f, std::string *f
 
 static void raw_to_values(const RefParam &p, SnapParam &s) {
     s.type = p.type;
-    if (p.dims.empty() && p.type != -1) s.dims.push_back(1);
+    if (p.dims.empty()) s.dims.push_back(1); // scalar
     for (auto d : p.dims) s.dims.push_back(d);
     if (p.type == 1) for (auto v : p.raw) s.ints.push_back(s8(v));
     else if (p.type == 2) for (size_t i = 0; i + 1 < p.raw.size(); i += 2) s.ints.push_back(s16(static_cast<unsigned>(p.raw[i]) | (static_cast<unsigned>(p.raw[i + 1]) << 8)));
     else if (p.type == 4) for (size_t i = 0; i + 3 < p.raw.size(); i += 4) { uint32_t v; std::memcpy(&v, &p.raw[i], 4); s.floats.push_back(v); }
     else {
-        if (p.dims.empty()) { s.strs.push_back(rtrim(cstr(std::string(p.raw.begin(), p.raw.end())))); return; }
-        size_t L = p.dims[0];
+        std::vector<uint8_t> dd = p.dims;
+        if (dd.empty()) dd.push_back(1);
+        size_t L = dd[0];
         size_t n = 1;
-        for (size_t d = 1; d < p.dims.size(); ++d) n *= p.dims[d];
-        if (p.dims.size() == 1) {
+        for (size_t d = 1; d < dd.size(); ++d) n *= dd[d];
+        if (dd.size() == 1) {
             if (L != 0) {
                 // ezc3d concatenates single-character C strings: a NUL cell contributes nothing
                 std::string t;
@@ -296,7 +297,7 @@ std::string c03_check(const std::vector<uint8_t> &b, const Snapshot &mem, std::s
     for (auto &p : f.params) if (p.name != upper(p.name)) return fail("name-case", "parameter name '" + p.name + "' stored in lower case");
     {
         DiffOpts o;
-        o.upper_names = true; o.skip_data_start = true; o.skip_prologue = true; o.skip_header = true;
+        o.upper_names = true; o.skip_data_start = true; o.skip_prologue = true; o.skip_header = true; o.ignore_empty_subframes = true;
         std::string fc2, dd = diff_snapshots(mem, fs, o, &fc2);
         if (!dd.empty()) return fail("content/" + fc2, "decoded content differs from memory (memory vs file): " + dd);
     }
@@ -331,16 +332,17 @@ std::string c03_check(const std::vector<uint8_t> &b, const Snapshot &mem, std::s
         if (!(std::fabs(static_cast<double>(hr) - static_cast<double>(prate)) <= 1e-4) && !(std::isnan(hr) && std::isnan(prate)))
             return fail("hdr-vs-POINT.RATE", "header rate " + tos(hr) + " != POINT:RATE " + tos(prate));
     }
-    if (fval("POINT", "SCALE", pscale)) {
-        float hs = bits2f(f.scale_bits);
-        bool hneg = hs < 0, pneg = pscale < 0; // NaN is not negative: a reader testing "scale < 0" sees integer format
-        if (hneg != pneg) return fail("hdr.scale-float-marker", "header scale word 0x" + [&] { char t[16]; std::snprintf(t, sizeof t, "%08x", f.scale_bits); return std::string(t); }() + " is not a negative float although POINT:SCALE is " + tos(pscale));
-    }
     // data section size
     uint64_t per = 4ull * f.n_points + f.n_analog_meas;
     uint64_t expect = static_cast<uint64_t>(mem.frames.size()) * per * 4;
     if (b.size() - f.param_end != expect)
         return fail("data.size", "data section holds " + tos(b.size() - f.param_end) + " bytes, expected frames x (4 x points + channels x sub-frames) x 4 = " + tos(expect));
+    // checked last: a known finding here must not hide anything above
+    if (fval("POINT", "SCALE", pscale)) {
+        float hs = bits2f(f.scale_bits);
+        bool hneg = hs < 0, pneg = pscale < 0; // NaN is not negative: a reader testing "scale < 0" sees integer format
+        if (hneg != pneg) return fail("hdr.scale-float-marker", "header scale word 0x" + [&] { char t[16]; std::snprintf(t, sizeof t, "%08x", f.scale_bits); return std::string(t); }() + " is not a negative float although POINT:SCALE is " + tos(pscale));
+    }
     return "";
 }
 
